@@ -5,6 +5,7 @@ TimeZone.__init__ and the three parsers' parse methods (acceptance decision
 vs the reference's legality of the tuple in the active calendar mode;
 exception type must derive from ValueError), plus a logical step budget
 (sys.monitoring LINE events in repository code) around every parse."""
+import itertools
 import re
 
 from .. import core
@@ -515,6 +516,19 @@ def truncated_cases(mode):
                        "fields": None, "cfg": 1}
 
 
+def assumed_zone_cases():
+    """zone-less texts read by a parser whose assumed zone is in / out of
+    range or of conflicting sign"""
+    for h in (-100, -99, -12, -5, -1, 0, 1, 5, 14, 99, 100):
+        for m in (-60, -59, -30, -1, 0, 1, 30, 59, 60):
+            legal = legal_zone(h, m)
+            for text in ("2000-01-01T06:30", "20000101T0630", "2000-001T06",
+                         "2000-W01-1"):
+                yield {"op": "text", "mode": "gregorian", "what": "zone",
+                       "text": text, "legal": legal, "fields": None,
+                       "assumed": [h, m], "zone": [h, m]}
+
+
 def time_zone_cases():
     for h in range(-1, 26):
         for m in (-1, 0, 1, 59, 60):
@@ -736,6 +750,10 @@ def run_case(ctx, repo, case):
                           "fields": case.get("fields")}
             parser = ctx.parsers[case.get("cfg", 0)]
             try:
+                if case.get("assumed") is not None:
+                    # the zone comes from the parser's configuration
+                    parser = P.TimePointParser(
+                        assumed_time_zone=tuple(case["assumed"]))
                 res, steps = ctx.budget.run(
                     300000 + 2000 * len(case["text"]), parser.parse,
                     case["text"])
@@ -1002,11 +1020,13 @@ def workload(ctx, repo):
                 continue
             ctx.case = case
             run_case(ctx, repo, case)
-    for case in time_zone_cases():
+    for case in itertools.chain(time_zone_cases(), assumed_zone_cases()):
         i += 1
         if not ctx.mine(i):
             continue
         ctx.case = case
+        if case.get("assumed") is not None:
+            ctx.ev("cases.assumed-zone")
         run_case(ctx, repo, case)
     n = 6000 if ctx.tier == "quick" else 25000
     plan = (("TimePointParser", TP_SEEDS, 7, len(ctx.parsers)),
